@@ -64,8 +64,10 @@ func (l *hLog) count(kind int) int {
 
 type vHubReader struct{ log *hLog }
 
-func (r *vHubReader) RemoteSKIConnected(ski string)    { r.log.add(hEvent{Kind: hvConnected, S: ski}) }
-func (r *vHubReader) RemoteSKIDisconnected(ski string) { r.log.add(hEvent{Kind: hvDisconnected, S: ski}) }
+func (r *vHubReader) RemoteSKIConnected(ski string) { r.log.add(hEvent{Kind: hvConnected, S: ski}) }
+func (r *vHubReader) RemoteSKIDisconnected(ski string) {
+	r.log.add(hEvent{Kind: hvDisconnected, S: ski})
+}
 func (r *vHubReader) SetupRemoteDevice(ski string, w api.ShipConnectionDataWriterInterface) api.ShipConnectionDataReaderInterface {
 	r.log.add(hEvent{Kind: hvSetup, S: ski})
 	return nil
@@ -86,21 +88,21 @@ func (r *vHubReader) AllowWaitingForTrust(ski string) bool { return zzvrt.Bool("
 type vMdns struct{ log *hLog }
 
 func (m *vMdns) Start(cb api.MdnsReportInterface) error { return nil }
-func (m *vMdns) Shutdown()                               { m.log.add(hEvent{Kind: hvMdnsShutdown}) }
-func (m *vMdns) AnnounceMdnsEntry() error                { m.log.add(hEvent{Kind: hvMdnsAnnounce}); return nil }
-func (m *vMdns) UnannounceMdnsEntry()                    {}
-func (m *vMdns) SetAutoAccept(b bool)                    { m.log.add(hEvent{Kind: hvMdnsSetAuto, B: b}) }
-func (m *vMdns) QRCodeText() string                      { return "" }
-func (m *vMdns) RequestMdnsEntries()                     { m.log.add(hEvent{Kind: hvMdnsRequest}) }
+func (m *vMdns) Shutdown()                              { m.log.add(hEvent{Kind: hvMdnsShutdown}) }
+func (m *vMdns) AnnounceMdnsEntry() error               { m.log.add(hEvent{Kind: hvMdnsAnnounce}); return nil }
+func (m *vMdns) UnannounceMdnsEntry()                   {}
+func (m *vMdns) SetAutoAccept(b bool)                   { m.log.add(hEvent{Kind: hvMdnsSetAuto, B: b}) }
+func (m *vMdns) QRCodeText() string                     { return "" }
+func (m *vMdns) RequestMdnsEntries()                    { m.log.add(hEvent{Kind: hvMdnsRequest}) }
 
 // ---- fake transport handle + fake ship connection ----
 
 type vHandler struct{ id int }
 
 func (h *vHandler) InitDataProcessing(api.WebsocketDataReaderInterface) {}
-func (h *vHandler) WriteMessageToWebsocketConnection([]byte) error     { return nil }
-func (h *vHandler) CloseDataConnection(int, string)                    {}
-func (h *vHandler) IsDataConnectionClosed() (bool, error)              { return false, nil }
+func (h *vHandler) WriteMessageToWebsocketConnection([]byte) error      { return nil }
+func (h *vHandler) CloseDataConnection(int, string)                     {}
+func (h *vHandler) IsDataConnectionClosed() (bool, error)               { return false, nil }
 
 type vConn struct {
 	log     *hLog
